@@ -97,6 +97,8 @@ type scnStep struct {
 	BMCSet   scnBMC     `json:"bmcset"`
 	KGEmpty  bool       `json:"kg_empty"` // open: KG is a zero-length, non-nil slice (what []byte("") or hex.DecodeString("") give)
 	Reuse    bool       `json:"reuse"`    // cmd: send the very command value of the last step with the same command name again
+	ViaNewSession bool  `json:"via_newsession"` // open: through the version-agnostic entry point NewSession(ctx, *SessionOpts)
+	KeepCtx  bool       `json:"keep_ctx"` // the step's context stays alive after the step (until the scenario ends)
 }
 
 type scenario struct {
@@ -172,6 +174,7 @@ type simTransport struct {
 	stepCtx context.Context    // the caller's context of the current step
 	cancel  context.CancelFunc // ends the step when it transmits without bound
 	runaway bool
+	extra   []byte     // UDP mode: a datagram the bridge sends right behind the reply
 	udp     bool       // driven by the UDP bridge: never blocks, a missing reply is simply not sent
 	mu      sync.Mutex // UDP mode: the bridge goroutine and the step runner
 }
@@ -203,9 +206,15 @@ func startBridge(t *simTransport) (*udpBridge, error) {
 			if e == nil {
 				out = append([]byte{}, reply...)
 			}
+			extra := t.extra
+			t.extra = nil
 			t.mu.Unlock()
 			if e == nil {
 				c.WriteToUDP(out, addr)
+			}
+			if extra != nil {
+				// a stray datagram right behind the reply (okstray)
+				c.WriteToUDP(extra, addr)
 			}
 		}
 	}()
@@ -259,11 +268,22 @@ func (t *simTransport) Send(ctx context.Context, d []byte) ([]byte, error) {
 	copy(cp, d)
 
 	var reply []byte
+	// "A|B|C": action A decides the reply, B and C are applied to its bytes afterwards (setbytes, flip, trunc, extend)
+	var post []string
+	if parts := strings.Split(action, "|"); len(parts) > 1 {
+		action, post = parts[0], parts[1:]
+	}
 	name, arg := action, ""
 	if i := strings.IndexByte(action, ':'); i >= 0 {
 		name, arg = action[:i], action[i+1:]
 	}
 	switch name {
+	case "ccnobody":
+		// a refusal cut short right after the completion code: a group-extension response WITHOUT its body code
+		// (some BMCs do this; DCMI 1.5 6.x requires the body code in every response)
+		t.b.BareCC = uint8(atoi(arg))
+		reply = t.b.Handle(cp)
+		t.b.BareCC = 0
 	case "busy", "c3", "cc", "truncbody", "emptybody":
 		t.b.Intercept = func(key sim.CmdKey, s *sim.Session, lun uint8, data []byte) (bool, uint8, []byte) {
 			switch name {
@@ -383,6 +403,11 @@ func (t *simTransport) Send(ctx context.Context, d []byte) ([]byte, error) {
 		if len(ss) > 0 && ev.Kind == "ipmi-session" {
 			reply = forge(arg, ev, ss[len(ss)-1], t.rng)
 		}
+	case "okstray":
+		// the genuine reply, and hard on its heels a duplicate of the previous command's reply (real sockets only)
+		if t.udp && t.prevStep != nil {
+			t.extra = append([]byte{}, t.prevStep...)
+		}
 	case "dupprev":
 		// a stale duplicate of an earlier reply arrives instead of this one
 		if t.prev != nil {
@@ -411,6 +436,38 @@ func (t *simTransport) Send(ctx context.Context, d []byte) ([]byte, error) {
 	}
 	if genuine != nil && name != "dupprev" && name != "dupstep" {
 		t.prev = genuine
+	}
+	for _, pa := range post {
+		pn, parg := pa, ""
+		if i := strings.IndexByte(pa, ':'); i >= 0 {
+			pn, parg = pa[:i], pa[i+1:]
+		}
+		if reply == nil {
+			break
+		}
+		reply = append([]byte{}, reply...)
+		switch pn {
+		case "setbytes":
+			for _, kv := range strings.Split(parg, ";") {
+				var off, val int
+				fmt.Sscanf(kv, "%d=%d", &off, &val)
+				if off < len(reply) {
+					reply[off] = byte(val)
+				}
+			}
+		case "flip":
+			if k := atoi(parg); k/8 < len(reply) {
+				reply[k/8] ^= 1 << uint(k%8)
+			}
+		case "trunc":
+			if k := atoi(parg); k < len(reply) {
+				reply = reply[:k]
+			}
+		case "extend":
+			reply = append(reply, bytes.Repeat([]byte{0x5c}, atoi(parg))...)
+		default:
+			panic("unknown post-action " + pn)
+		}
 	}
 	if reply == nil {
 		t.deliv = append(t.deliv, "")
@@ -726,6 +783,7 @@ type scnState struct {
 	sess   *bmc.V2Session
 	bridge *udpBridge
 	last   map[string]builtCmd // the command value last sent under each command name (for "reuse")
+	kept   []context.CancelFunc
 }
 
 type builtCmd struct {
@@ -734,6 +792,10 @@ type builtCmd struct {
 }
 
 func (st *scnState) close() {
+	for _, c := range st.kept {
+		c()
+	}
+	st.kept = nil
 	if st.bridge != nil {
 		st.conn.Close()
 		st.bridge.conn.Close()
@@ -810,7 +872,11 @@ func runStepM(st *scnState, step *scnStep, withMetrics bool) (res stepResult) {
 		tm := time.AfterFunc(time.Duration(step.CancelMs)*time.Millisecond, cancel)
 		defer tm.Stop()
 	}
-	defer cancel()
+	if step.KeepCtx {
+		st.kept = append(st.kept, cancel)
+	} else {
+		defer cancel()
+	}
 	t.mu.Lock()
 	t.cancel, t.runaway = cancel, false
 	t.stepCtx = ctx
@@ -869,7 +935,18 @@ func runStepM(st *scnState, step *scnStep, withMetrics bool) (res stepResult) {
 			if step.KGEmpty {
 				opts.KG = []byte{}
 			}
-			sess, err := st.conn.NewV2Session(ctx, opts)
+			var sess *bmc.V2Session
+			var err error
+			if step.ViaNewSession {
+				// the interface entry point: default suites, no KG, privilege lookup off
+				var s bmc.Session
+				s, err = st.conn.NewSession(ctx, &opts.SessionOpts)
+				if err == nil {
+					sess = s.(*bmc.V2Session)
+				}
+			} else {
+				sess, err = st.conn.NewV2Session(ctx, opts)
+			}
 			res.Err = classifyErr(err)
 			if err != nil {
 				res.ErrText = err.Error()
